@@ -2,7 +2,7 @@
 use std::io::Read;
 use std::sync::atomic::{AtomicU64, Ordering};
 
-use pgp::composed::{Deserializable, Message, SignedSecretKey};
+use pgp::composed::{Message, SignedSecretKey};
 use pgp::crypto::aead::AeadAlgorithm;
 use pgp::crypto::hash::HashAlgorithm;
 use pgp::crypto::sym::SymmetricKeyAlgorithm;
